@@ -1,13 +1,13 @@
 PROP = dict(
     coq=["Safe/SafeHarness.vo"],
     legs=[
-        dict(driver="scan", binary="zsafe", quick=4000, thorough=120000, shard=500,
+        dict(driver="scan", binary="zsafe", quick=3000, thorough=120000, shard=375,
              monitors=["no_panic (the real scanner returned for this input)",
                        "value (GetShortID is a prefix of the id of at most 11 bytes; Link-header URLs are non-empty)"]),
-        dict(driver="dispatch", binary="zsafe", quick=4000, thorough=60000, shard=500,
+        dict(driver="dispatch", binary="zsafe", quick=3000, thorough=60000, shard=500,
              monitors=["dispatch_nil_safe (an item satisfying the archiver's invariant is processed without a panic)",
                        "not_archived_untouched (an item in another state is returned as it came)"]),
-        dict(driver="fuzz", binary="zsafe", quick=30000, thorough=600000, shard=5000,
+        dict(driver="fuzz", binary="zsafe", quick=24000, thorough=600000, shard=4000,
              monitors=["no_panic (recover() in the child caught nothing)",
                        "no_hang (the child answered within the watchdog)",
                        "no_crash (the child process survived: no fatal error, no out-of-memory)"]),
